@@ -14,6 +14,8 @@ STMTS = [
     "insert into t values ('-- not a comment')",
     "insert into t values ('/* nor this */')",
     "insert into t values ($$dollar ; quoted$$)",
+    "insert into t values ($$dollar -- not a comment\nsecond line$$)",
+    "insert into t values ($$d /* nor this */ e // f$$)",
     "insert into t values ('é中\U0001f600')",
     "select count(*) from t",
     "select s from t order by s",
@@ -51,12 +53,14 @@ def run(tier="quick", seed=0, repo="/repo"):
     n = 2 if tier == "quick" else 3
     seqs = [s for L in range(0, n + 1) for s in itertools.product(range(len(STMTS)), repeat=L)]
     if tier == "quick":
-        seqs = [s for s in seqs if len(s) < 2 or s[0] in (0, 1, 6, 10)]
+        seqs = [s for s in seqs if len(s) < 2 or s[0] in (0, 1, 6, 12)]
     for seq in seqs:
         for fi, filler in enumerate(FILLERS if tier != "quick" else FILLERS[::2] + [FILLERS[4]]):
             stmts = [STMTS[i] for i in seq]
             script = filler + "".join(s + ";" + filler for s in stmts)
-            for cls in (sfc.SnowflakeCursor, sfc.DictCursor) if fi == 0 else (sfc.SnowflakeCursor,):
+            # remove_comments=True (the connector's option to strip comments first) must not change anything either: comments are ignored
+            # anyway and comment markers inside literals are literal text
+            for cls, rc in ((sfc.SnowflakeCursor, False), (sfc.DictCursor, False), (sfc.SnowflakeCursor, True)) if fi == 0 else ((sfc.SnowflakeCursor, False), (sfc.SnowflakeCursor, True)):
                 fs1, fs2 = new_instance(repo), new_instance(repo)
                 c1, c2 = fs1.connect("db1", "s1"), fs2.connect("db1", "s1")
                 # reference: one by one
@@ -70,7 +74,7 @@ def run(tier="quick", seed=0, repo="/repo"):
                 got = []
                 err = None
                 try:
-                    curs = list(c2.execute_string(script, cursor_class=cls))
+                    curs = list(c2.execute_string(script, cursor_class=cls, remove_comments=rc))
                     got = [outcome(c) for c in curs]
                 except Exception as e:  # noqa: BLE001
                     err = e
@@ -81,8 +85,8 @@ def run(tier="quick", seed=0, repo="/repo"):
                 else:
                     ok = got == want and table_state(c1) == table_state(c2)
                     detail = "ok" if ok else f"got {got} want {want}"
-                cid = f"script:{'-'.join(map(str, seq))}:f{fi}:{cls.__name__}"
-                t.case(cid, (seq, fi, cls.__name__) if seq else None, ok, function="fakesnow.conn.FakeSnowflakeConnection.execute_string", case={"script": script, "cursor": cls.__name__}, expected="one-by-one", actual=detail, sample_every=41)
+                cid = f"script:{'-'.join(map(str, seq))}:f{fi}:{cls.__name__}" + (":remove_comments" if rc else "")
+                t.case(cid, (seq, fi, cls.__name__, rc) if seq else None, ok, function="fakesnow.conn.FakeSnowflakeConnection.execute_string", case={"script": script, "cursor": cls.__name__, "remove_comments": rc}, expected="one-by-one", actual=detail, sample_every=41)
     # nop_regexes
     pattern_sets = [["^CALL.*"], ["^grant ", "create\\s+role"], ["^ALTER SESSION"], [".*never matches this.*zzz"]]
     stmts = ["call my_proc()", "CALL P2(1)", "grant select on t to role r", "create role r1", "alter session set x = 1", "insert into t values ('call me')", "select 'grant ' || s from t",
